@@ -121,13 +121,13 @@ def run(repo, rep):
               % (sorted(set().union(*prod_sets.values())) or 'nothing', sorted({e for d in cell_raises.values() for e in d}) or 'nothing'),
               'exceptions that leave the provider thread: ' + ' | '.join(origins))
 
-    # E8 ---------------------------------------------------------------------
+    # E9 ---------------------------------------------------------------------
     from ..api_pitfalls import loop_progress_problems
     p8, n8 = loop_progress_problems(repo)
-    rep.rule('C12.E8', 'no input makes a decoder spin: in every ``while`` loop of the peer-driven modules whose test reads locals, each '
+    rep.rule('C12.E9', 'no input makes a decoder spin: in every ``while`` loop of the peer-driven modules whose test reads locals, each '
              'path back to the test (end of body, ``continue``) has assigned one of them or called a method on it', 1)
     rep.notes['loops_with_local_tests'] = n8
-    rep.check(not p8, 'C12.E8', 'package:while-loops:progress', 'pynetdicom2',
+    rep.check(not p8, 'C12.E9', 'package:while-loops:progress', 'pynetdicom2',
               '%d while loop(s) over locals, each path back to the test changes what it reads' % n8, '; '.join(p8))
 
     # E2 ---------------------------------------------------------------------
